@@ -18,7 +18,7 @@ Trace == JsonDeserialize(IOEnv.TRACE_FILE)
 VARIABLES l, st, pst
 vars == <<l, st, pst>>
 NoRun == [run |-> FALSE, ret |-> FALSE, x0 |-> <<>>, m0 |-> DZero, w |-> <<>>, t |-> <<>>,
-          vars |-> <<>>, zmax |-> DOne, evs |-> <<>>, rx |-> <<>>, rf |-> DZero]
+          vars |-> <<>>, zmax |-> DOne, evs |-> <<>>, rx |-> <<>>, rf |-> DZero, envok |-> TRUE, success |-> TRUE]
 
 AllFin(s) == \A i \in 1..Len(s) : IsFin(s[i])
 \* the merit function: sum over operands of (weight * (value - target))^2
@@ -27,6 +27,8 @@ Merit(ops, w, t) == DSumSeq([i \in 1..Len(ops) |-> DSq(DMul(w[i], DSub(ops[i], t
 Floor(ops, w, t) == DShift(DSumSeq([i \in 1..Len(ops) |-> DSq(DMul(w[i], Sum2(ops[i], t[i])))]), -80)
 NearM(a, b, floor) == /\ IsFin(a) /\ IsFin(b)
                       /\ DLe(DAbs(DSub(a, b)), DAdd(DShift(Sum2(a, b), -40), floor))
+NearM30(a, b, floor) == /\ IsFin(a) /\ IsFin(b)
+                        /\ DLe(DAbs(DSub(a, b)), DAdd(DShift(Sum2(a, b), -30), floor))
 MeritIdentity(e) ==
   IF Len(e.ops) # Len(e.w) \/ Len(e.ops) # Len(e.t) THEN {"merit_identity"}
   ELSE IF AllFin(e.ops) THEN (IF Close(e.ss, Merit(e.ops, e.w, e.t), 44) THEN {} ELSE {"merit_identity"})
@@ -71,13 +73,19 @@ Eval(s, e) ==
   (IF Len(e.ops) # Len(s.w) THEN {"callback_merit"}
    ELSE IF AllFin(e.ops) THEN (IF Close(e.f, Merit(e.ops, s.w, s.t), 44) THEN {} ELSE {"callback_merit"})
    ELSE (IF IsFin(e.f) /\ DLe(s.m0, e.f) THEN {} ELSE {"callback_penalty"}))   \* undefined operand: a finite penalty, never better than the start
+\* scipy's contract (the environment assumption of Optimizer.tla's Return step): the returned
+\* objective is the value the callback gave at the returned point (some evaluation of it: the
+\* objective depends on the path in its last bits).  Decidable only when every evaluation of
+\* the run was logged in this process.
+\* (when the evaluation log was truncated the recorder's own summary `match` is used)
+EnvOK(s, e) == IF e.complete
+               THEN (\E j \in 1..Len(s.evs) : s.evs[j].p = e.x)
+                      => (\E j \in 1..Len(s.evs) : s.evs[j].p = e.x /\ (s.evs[j].f = e.fun \/ Close(s.evs[j].f, e.fun, 40)))
+               ELSE e.match # "x_only"
 Return(s, e) ==
-  \* scipy's contract: the returned objective is the value the callback gave at the returned
-  \* point (some evaluation of it: the objective depends on the path in its last bits).
-  \* Judged only when every evaluation of the run was logged in this process.
-  (IF (e.complete /\ \E j \in 1..Len(s.evs) : s.evs[j].p = e.x)
-        => (\E j \in 1..Len(s.evs) : s.evs[j].p = e.x /\ s.evs[j].f = e.fun)
-   THEN {} ELSE {"ret_fun_is_callback"}) \cup
+  \* a run scipy itself reports as failed (e.g. L-BFGS-B "ABNORMAL" line search) may hand back
+  \* a point together with the objective of another point: that is noted, not judged
+  (IF EnvOK(s, e) THEN {} ELSE IF e.success THEN {"ret_fun_is_callback"} ELSE {"~scipy_failed_run_returned_inconsistent_pair"}) \cup
   (IF Len(e.x) = Len(s.x0) /\ AllFin(e.x) /\ IsFin(e.fun) THEN {} ELSE {"ret_shape"})
 
 PickupsHold(e) ==
@@ -97,9 +105,14 @@ After(s, e) ==
   LET floor == IF AllFin(e.ops) THEN Floor(e.ops, e.w, e.t) ELSE DZero IN
   (IF \A i \in 1..Len(s.rx) : ReadsBack(e.vars[i].v, s.rx[i], e.vars[i].vtype, e.vars[i].scaled, e.zmax)
    THEN {} ELSE {"lens_at_returned"}) \cup
-  (IF NearM(e.ss, s.rf, floor) THEN {} ELSE {"merit_at_returned"}) \cup
+  \* (2^-30: the lens reaches the returned point through another history of thickness edits
+  \*  and solves than scipy's evaluation did; measured path dependence 4e-12 relative)
+  (IF ~s.envok \/ NearM30(e.ss, s.rf, floor) THEN {} ELSE {"merit_at_returned"}) \cup
   MeritIdentity(e) \cup
-  (IF DLe(s.rf, DAdd(DAdd(s.m0, DShift(DAbs(s.m0), -40)), floor)) THEN {} ELSE {"not_worse"}) \cup
+  \* not worse than the start - scipy's contract for a run it reports as successful (a failed run,
+  \* e.g. an abnormal line search, may return its penalty value).  Slack 2^-26: least_squares moves
+  \* a start lying on a bound strictly inside before evaluating (measured 1e-10 relative).
+  (IF ~s.success \/ DLe(s.rf, DAdd(DAdd(s.m0, DShift(DAbs(s.m0), -26)), floor)) THEN {} ELSE {"not_worse"}) \cup
   (IF \A i \in 1..Len(e.vars) :
         LET r == e.vars[i]
             tol(lim) == DShift(DAdd(Sum2(lim, r.phys), Unit(r.vtype, FALSE, e.zmax)), -40) IN
@@ -146,7 +159,7 @@ Next == /\ l < Len(Trace)
                                                            !.m0 = e.ss, !.w = e.w, !.t = e.t, !.vars = e.vars,
                                                            !.zmax = e.zmax]
                         [] e.op = "eval" -> [st EXCEPT !.evs = Append(@, [p |-> e.p, f |-> e.f])]
-                        [] e.op = "return" -> [st EXCEPT !.ret = TRUE, !.rx = e.x, !.rf = e.fun]
+                        [] e.op = "return" -> [st EXCEPT !.ret = TRUE, !.rx = e.x, !.rf = e.fun, !.envok = EnvOK(st, e), !.success = e.success]
                         [] e.op = "reject" -> [st EXCEPT !.run = FALSE]
                         [] OTHER -> st
              /\ pst' = CASE e.op = "new" -> <<>>
